@@ -561,6 +561,17 @@ impl Engine for FileE2e {
                     {
                         out.violate("C11", "unexpected_file", format!("file {path} does not belong to either set"));
                     }
+                    // C06 through the file emitter: one client emits in marker order, a file is only ever appended to by
+                    // one batch at a time and abandoned after a failed write, so within a file the events keep their order
+                    // and none appears twice
+                    let in_file = markers_in(&data);
+                    if let Some(w) = in_file.windows(2).find(|w| w[0] >= w[1]) {
+                        out.violate(
+                            "C06",
+                            "file_record_order",
+                            format!("in {path} event {} is followed by {}: emitted order is not kept (or an event is written twice)", w[0], w[1]),
+                        );
+                    }
                     for line in data.split(|b| *b == b'\n') {
                         if markers_in(line).len() > 1 {
                             out.violate(
